@@ -17,6 +17,9 @@ def gen(seed, tier):
         for a in fibs:
             for b in fibs:
                 yield {"prop": PROP, "op": op, "d": 0, "dflt": 0, "a": a, "b": b, "kind": "free"}
+        # the very same fiber object on both sides (a & a, a | a, a ^ a, a - a)
+        for a in fibs:
+            yield {"prop": PROP, "op": op, "d": 0, "dflt": 0, "a": a, "b": a, "kind": "free", "same": True}
     rng = random.Random(seed)
     nrand = 3000 if tier == "quick" else 60000
     for i in range(nrand):
@@ -33,6 +36,8 @@ def gen(seed, tier):
             case["dfltB"] = rng.choice([v for v in (0, 7, -1) if v != dflt])
         b = H.gen_tree(rng, d + 1, n, pool, case.get("dfltB", dflt))
         case.update({"a": a, "b": b})
+        if "dfltB" not in case and rng.random() < 0.06:
+            case.update({"b": a, "same": True})       # one object on both sides, at any depth
         if kind == "owned" and rng.random() < 0.3:
             # fibers built with their own default 0 inside a tensor of another default: emptiness is judged by
             # the owning rank's default
@@ -356,6 +361,9 @@ def run(case):
                 t.setFormat(rid, "U")
         tensors = [ta, tb]
         fa, fb = ta.getRoot(), tb.getRoot()
+    if case.get("same"):
+        fb = fa
+        tensors = tensors[:1]
     before = (H.snapshot(fa), H.snapshot(fb), [_ranks(t) for t in tensors])
     side = {}
     leafA, leafB = _leafflag(fa, d, case["kind"]), _leafflag(fb, d, case["kind"])
